@@ -91,6 +91,58 @@ def rule_check_writes_nothing(ctx):
         r.check(need <= names, "main/rejected-set-complete", db.loc(m, rej[0]), "--check is accepted together with %s" % sorted(need - names))
         ok, wit = region_always_returns_nonzero(m, rej[0])
         r.check(ok, "main/rejection-returns-nonzero", db.loc(m, rej[0]), "after the usage error main continues")
+    # files created below uncrustify_file(): the tracking file, the parsed-token file, the dump-steps files.  Each is selected
+    # by a command line argument; --check must be rejected together with it (the tracking branch even leaves through exit(0)
+    # before the comparison, so --check would report success for a file that is not formatted)
+    u = db.fn("uncrustify_file", file=UNC)
+    reach = db.reachable_from([u])
+
+    def roots(g, expr, depth=0):
+        """what the expression `expr` (a parameter of g, or a global) is in main(): set of texts"""
+        if g.qn == "main" or depth > 4:
+            return {expr}
+        ps = [q["n"] for q in g.d.get("params", ())]
+        if expr not in ps:
+            return {expr}                                   # a global or something computed here
+        out = set()
+        for g2, c in db.callers_of_key(g.key):
+            a = c.get("a", ())
+            if len(a) > ps.index(expr):
+                out |= roots(g2, expr_str(g2, a[ps.index(expr)]), depth + 1)
+        return out
+    n_ev = 0
+    for k in sorted(reach):
+        g = db.funcs[k]
+        if g.qn in ("make_folders",):
+            continue                                        # called with the name of a file that is created next to the call: judged at that site
+        for n in g.all_nodes():
+            if not (is_write_open(g, n) or (n["k"] == "call" and n.get("c") in FILE_MUTATORS)):
+                continue
+            n_ev += 1
+            r.seen()
+            sel = set()
+            for cn, pol in g.guard_conds(g.nblock[n["i"]]):
+                if cn is None:
+                    continue
+                for x in walk(g, cn):
+                    if x["k"] == "ref" and x.get("d") == "pv":
+                        sel |= roots(g, x["n"])
+                    elif x["k"] == "mem" and expr_str(g, x["i"]).startswith("cpd."):
+                        sel.add(expr_str(g, x["i"]))
+            sel_names = set()
+            for t in sel:
+                if t == "dump_file_name":
+                    # the buffer is filled only by set_dump_file_name(), which main calls only when -ds/--dump-steps was given
+                    setters = [c for c in db.calls_in(m, "set_dump_file_name")]
+                    if setters and all(any("dump_file_T" in expr_str(m, cn) and pol is True for cn, pol in m.guard_conds(m.nblock[c["i"]]) if cn is not None) for c in setters) \
+                            and not [1 for g3, c in db.callers_of("set_dump_file_name") if g3.qn != "main"]:
+                        sel_names.add("dump_file_T")
+                else:
+                    sel_names.add(t)
+            r.check(bool(sel_names & names), "%s/%s-selected-by-a-rejected-argument" % (g.qn, (n.get("c") or "open")), db.loc(g, n),
+                    "`%s` creates a file under conditions over %s; none of these is an argument that main rejects together with --check (%s)"
+                    % (expr_str(g, n["i"])[:50], sorted(sel) or "nothing", sorted(names)))
+    r.require(n_ev >= 3, "only %d file-creating events found below uncrustify_file" % n_ev)
     for n in db.calls_in(m, "redir_stdout"):
         r.seen()
         conds = m.guard_conds(m.nblock[n["i"]])
